@@ -97,6 +97,15 @@ func NewMemoryCache[MetadataT any](cfg *config.Config, memoryBudgetPercent int, 
 		getLock: func(key CacheKey) *sync.RWMutex {
 			return getLock(c.locks, key)
 		},
+		getMetadata: func(key CacheKey) (*EntryMetadata[MetadataT], bool) {
+			c.mu.RLock()
+			entry, ok := c.entries[key]
+			c.mu.RUnlock()
+			if !ok {
+				return nil, false
+			}
+			return entry.meta, true
+		},
 	})
 	c.janitor.start(ctx)
 
